@@ -1,5 +1,5 @@
 // Witness probe for C06 (bounded): builder validation of all four solver families and "an Err item ends the iteration".
-use bacon_sci::ivp::{adams::Adams5, bdf::BDF2, rk::RungeKutta45, Euler, IVPError, IVPSolver, UserError};
+use bacon_sci::ivp::{adams::{Adams3, Adams5}, bdf::{BDF2, BDF6}, rk::{RungeKutta23, RungeKutta45}, Euler, IVPError, IVPSolver, UserError};
 use bacon_sci::BSVector;
 use std::cell::Cell;
 type Fp = fn(f64, &[f64], &mut ()) -> Result<BSVector<f64, 1>, UserError>;
@@ -12,6 +12,8 @@ macro_rules! family { ($name:expr, $new:expr, $found:expr) => {{
     if !matches!($new.with_minimum_dt(-0.1), Err(IVPError::TimeDeltaOOB)) { $found.push(format!("{name}: with_minimum_dt(-0.1) not rejected")); }
     if !matches!($new.with_initial_time(1.0).unwrap().with_ending_time(1.0), Err(IVPError::TimeEndOOB)) { $found.push(format!("{name}: end == start not rejected with TimeEndOOB")); }
     if !matches!($new.with_ending_time(1.0).unwrap().with_initial_time(2.0), Err(IVPError::TimeStartOOB)) { $found.push(format!("{name}: start > end not rejected with TimeStartOOB")); }
+    if !matches!($new.with_ending_time(1.0).unwrap().with_initial_time(1.0), Err(IVPError::TimeStartOOB)) { $found.push(format!("{name}: start == end (end set first) not rejected with TimeStartOOB")); }
+    if !matches!($new.with_initial_time(2.0).unwrap().with_ending_time(1.0), Err(IVPError::TimeEndOOB)) { $found.push(format!("{name}: end < start not rejected with TimeEndOOB")); }
     if !matches!($new.with_initial_time(0.0).unwrap().with_derivative(ok_d as Fp).solve(()).map(|_| ()), Err(IVPError::MissingParameters)) { $found.push(format!("{name}: incomplete configuration not rejected with MissingParameters")); }
     // min / max in either order
     for (a, b, first_max) in [(0.1, 0.5, true), (0.5, 0.1, true), (0.1, 0.5, false), (0.5, 0.1, false)] {
@@ -24,6 +26,9 @@ macro_rules! family { ($name:expr, $new:expr, $found:expr) => {{
 fn main() {
     let mut found: Vec<String> = Vec::new();
     family!("RungeKutta45", RungeKutta45::<f64, nalgebra::Const<1>, (), Fp>::new().unwrap(), found);
+    family!("RungeKutta23", RungeKutta23::<f64, nalgebra::Const<1>, (), Fp>::new().unwrap(), found);
+    family!("Adams3", Adams3::<f64, nalgebra::Const<1>, (), Fp>::new().unwrap(), found);
+    family!("BDF6", BDF6::<f64, nalgebra::Const<1>, (), Fp>::new().unwrap(), found);
     family!("Adams5", Adams5::<f64, nalgebra::Const<1>, (), Fp>::new().unwrap(), found);
     family!("BDF2", BDF2::<f64, nalgebra::Const<1>, (), Fp>::new().unwrap(), found);
     if !matches!(Euler::<f64, nalgebra::Const<1>, (), Fp>::new().unwrap().with_tolerance(-1.0), Err(IVPError::ToleranceOOB)) { found.push("Euler: with_tolerance(-1) not rejected".into()); }
